@@ -8,7 +8,13 @@ the baseline result (65 passed); demo must exit non-zero; undo.  On success the 
 /verif/seeded/<prop>-<n>/ (patch.diff, demo.py, meta.json + 'confirmed' block)."""
 import json, os, re, shutil, subprocess, sys, time
 
-wt, n = sys.argv[1], sys.argv[2]
+src_wt, n = sys.argv[1], sys.argv[2]
+# work in a private worktree so that a seeder still using its own is never disturbed
+wt = "/tmp/vs-%s-%s" % (os.path.basename(src_wt), n)
+subprocess.run(["git", "-C", "/repo", "worktree", "remove", "--force", wt], capture_output=True)
+shutil.rmtree(wt, ignore_errors=True)
+subprocess.run(["git", "-C", "/repo", "worktree", "add", "-q", "--detach", wt, "HEAD"], check=True)
+shutil.copytree(os.path.join(src_wt, "SEED", n), os.path.join(wt, "SEED", n))
 sd = os.path.join(wt, "SEED", n)
 meta = json.load(open(os.path.join(sd, "meta.json")))
 prop = meta.get("property", "C??").upper()
@@ -30,7 +36,7 @@ def clean():
     return subprocess.run(["git", "status", "--porcelain", "--untracked-files=no"], cwd=wt, capture_output=True, text=True).stdout.strip() == ""
 
 
-out = {"worktree": wt, "n": n, "property": prop}
+out = {"worktree": src_wt, "n": n, "property": prop}
 assert clean()
 demo = [ "/venv/bin/python", os.path.join("SEED", n, "demo.py")]
 if os.path.exists(os.path.join(sd, "demo.py")) is False:
@@ -63,4 +69,6 @@ if ok:
                                         "demo_changed_exit": out["demo_changed"]["exit"],
                                         "repo_head": subprocess.run(["git", "-C", "/repo", "rev-parse", "--short", "HEAD"], capture_output=True, text=True).stdout.strip()}
     json.dump(meta, open(os.path.join(dst, "meta.json"), "w"), indent=1)
+subprocess.run(["git", "-C", "/repo", "worktree", "remove", "--force", wt], capture_output=True)
+shutil.rmtree(wt, ignore_errors=True)
 sys.exit(0 if ok else 1)
